@@ -145,7 +145,15 @@ let property_fails (hist : op list) tables tokens dcs (obs : string) : string op
     List.iter2 (fun k tab ->
         if !fail = None then
         match (try parse_table tab with _ -> raise (Malformed "table")) with
-        | None -> ()
+        | None ->
+          (* the table has no entry: every watched token is answered by nothing; the property fails when
+             the history says that a learnt tablet still answers one of them (a lost lookup) *)
+          List.iter (fun tok ->
+              if !fail = None then
+                let tok = token_new tok in
+                match spec_lookup hist k tok with
+                | Some l -> fail := Some (Printf.sprintf "lookup-lost-table-absent tok=%s spec=%s" (hex_of_z tok) (reps_s l))
+                | None -> ()) tokens
         | Some (ranges, lks) ->
           if not (ranges_okb ranges) then fail := Some "ranges-not-sorted-disjoint"
           else begin
@@ -214,6 +222,16 @@ let verdict case impl =
          | Some s' ->
            let m = observe s' (dres_tag s o) tables tokens dcs in
            if m = ob then go s' hist ops' obs' (i + 1)
+           else if (match o with
+               | DBytes _ -> ob <> "panic" &&
+                             (match String.index_opt ob '~' with
+                              | Some j -> String.sub ob 0 j <> dres_tag s o
+                              | None -> true)
+               | DOp _ -> false)
+           then
+             (* the implementation decoded this byte payload differently from the model: the history the
+                specification would be evaluated on is the MODEL's decoding, so no property verdict is possible *)
+             Printf.sprintf "diff step=%d decoder-divergence model=%s" i (dres_tag s o)
            else
              match (try Ok (property_fails hist tables tokens dcs ob) with Malformed w -> Err w) with
              | Err w -> Printf.sprintf "error malformed-observation step=%d %s" i w
@@ -233,6 +251,25 @@ let verdict case impl =
           (try if ranges_okb [(z_of_hex f, z_of_hex l)] then "diff model=" ^ m else "viol accepted-empty-or-out-of-range model=" ^ m
            with _ -> "error malformed-observation")
         | _ -> "diff model=" ^ m)
+  | ["Pe"; a; b; raw] ->
+    (* the specification's encoder enc_payload (C15_payload_roundtrip) against the bytes of the crate's CQL
+       serialiser and of the harness' encoder; and the round trip itself on the real decoder: its outcome on
+       those bytes must be the value-level payload_check of (a, b, raw).  No property clause: never viol *)
+    let a = z_of_hex a and b = z_of_hex b in
+    let raw = List.map (fun x -> match String.index_opt x '.' with
+        | Some i -> (n_of_hex (String.sub x 0 i), z_of_hex (String.sub x (i + 1) (String.length x - i - 1)))
+        | None -> failwith "raw") (split ',' raw) in
+    let enc = hexstr_of_bytes (enc_payload a b raw) in
+    let expect = match payload_check a b raw with
+      | Ok ((f, l), r) -> pres_tag (P_Ok (f, l, r))
+      | Err WrongTokenRange -> "rWrongTokenRange" | Err ShardNum -> "rShardNum" in
+    (match impl with
+     | [ser; own; tag] ->
+       if ser <> enc then "diff enc_payload-differs-from-serializer model=" ^ enc
+       else if own <> enc then "diff enc_payload-differs-from-harness-encoder model=" ^ enc
+       else if tag <> expect then "diff roundtrip model=" ^ expect
+       else "ok"
+     | _ -> "error malformed-observation")
   | _ -> "error unknown-case"
 
 let () = run_lines verdict
